@@ -17,7 +17,7 @@ EXN = {'TopologyException': 'ETopology', 'PropertyGraphQueryException': 'EQuery'
 CLS = {'NetworkNode': 1, 'Component': 2, 'NetworkService': 3, 'ConnectionPoint': 4, 'Link': 5, 'CompositeNode': 6}
 REL = {'has': 1, 'connects': 2}
 TYPES = {'Facility': 1, 'SubInterface': 2, 'SharedPort': 3, 'ServicePort': 4, 'DedicatedPort': 5, 'L2PTP': 6,
-         'L2Path': 7, 'Patch': 8, 'FacilityPort': 9}
+         'L2Path': 7, 'Patch': 8, 'FacilityPort': 9, 'Switch': 10}
 _types_dyn = {}
 
 
@@ -109,6 +109,13 @@ def coq_call(s, info, ids):
         return 'CAddFacility %s %s %s %s %s %s %s %s %s' % (name, oid, d('-ns'), d('-int'), dk,
                                                            cN(ctype(s.get('nstype', 'VLAN'))), cexn(info['pure_ns']),
                                                            ports, single)
+    if op == 'add_switch':
+        nid = s.get('node_id')
+        d = (lambda suf: cN(ids(nid + suf))) if nid else (lambda suf: cN(0))
+        np_ = s.get('nports', 2)
+        dk = clist([d('-int%d' % i) for i in range(1, np_ + 1)])
+        return 'CAddSwitch %s %s %s %s %s %s %s %s' % (name, oid, d('-ns'), dk, cN(ctype(s.get('nstype', 'P4'))),
+                                                     cexn(info['pure_ns']), cnat(np_), cexn(info['pure_port']))
     raise ValueError(op)
 
 
